@@ -728,7 +728,7 @@ func vC20Float(c *vCtx, tier string, part, parts int) {
 func init() {
 	vRegister(&vCheck{
 		ID: "C20", Level: "exploration", Engine: "domainmc",
-		Rule:        "k-means: ALL training sequences of length 1..L (L=3 quick for d=2, 4 thorough; 4 for d=1) over the lattice {0..3}^d, d in {1,2} (duplicates, k>n, k=n, collinear sets) x k in -1..6 x maxIter in {-1,0,1,2,100,101} x 3 metrics: nil for k<=0 / n=0, exactly min(k,n) finite centroids inside the bounding box (Euclidean family), valid mapping, identical output for a second call, input deep-equal afterwards, and when maxIter 100 and 101 agree (converged) every vector mapped to a nearest centroid. Train-twice: every trainable C02 configuration trained once vs twice then fed the same adds: identical private state and answers. Quantisers: float32 bit-exact on an alphabet with +-Inf/NaN/subnormals; float16 on ALL 65536 half bit patterns (identity) and, for every pair of adjacent normal halves, the float32 midpoint and its neighbours (<= half an ulp, result one of the two halves); thorough additionally sweeps EVERY float32 in the half-precision normal range; int8: 6 absMax x levels -127..127 x offsets {0, +-1/2, 1/4} x +-2 float32 neighbours (<= absMax/254), refusal before training / after all-zero training, input untouched. Non-trivial = distinct k-means cases with k < n that converged, distinct quantiser inputs.",
+		Rule:        "k-means: ALL training sequences of length 1..L (L=3 quick for d=2, 4 thorough; 4 for d=1) over the lattice {0..3}^d, d in {1,2} (duplicates, k>n, k=n, collinear sets) x k in -1..6 x maxIter in {-1,0,1,2,100,101} x 3 metrics: nil for k<=0 / n=0, exactly min(k,n) finite centroids inside the bounding box (Euclidean family), valid mapping, identical output for a second call, input deep-equal afterwards, and when maxIter 100 and 101 agree (converged) every vector mapped to a nearest centroid. Train-twice: every trainable C02 configuration trained once vs twice then fed the same adds: identical private state and answers. Quantisers: float32 bit-exact on an alphabet with +-Inf/NaN/subnormals; float16 on ALL 65536 half bit patterns (identity) and, for every pair of adjacent normal halves, the float32 midpoint and its neighbours (<= half an ulp, result one of the two halves); thorough additionally sweeps EVERY float32 in the half-precision normal range; int8: 6 absMax x levels -127..127 x offsets {0, +-1/2, 1/4} x +-2 float32 neighbours (<= absMax/254), refusal before training / after all-zero training, input untouched. Non-trivial = distinct k-means cases with k < n that converged, distinct quantiser inputs. Every k-means call is repeated with a caller-defined Distance type that delegates to the built-in metric: the clustering must be bit-identical.",
 		Assumptions: []string{"convergence is detected by equality of the maxIter=100 and maxIter=101 runs (one more iteration changes nothing)", "int8 bound absMax/254 with 1e-5 relative + 1e-6*absMax float tolerance"},
 		Shards: func(tier string) []vShard {
 			var sh []vShard
